@@ -294,6 +294,25 @@ def check_quit(program, rep):
                 rep.bad('C14.quit', f.where, 'finally: return/raise',
                         'a finally clause that returns or raises swallows '
                         'other exceptions', line=t.lineno)
+    for c, f_ in [(c, f_) for c in [lp] + program.subclasses(lp)
+                  for f_ in c.methods.values()]:
+        for w_ in [n for n in ast.walk(f_.node) if isinstance(n, ast.With)]:
+            for it_ in w_.items:
+                ce = it_.context_expr
+                if isinstance(ce, ast.Call) and (dotted(ce.func) or ''
+                                                 ).split('.')[-1] == 'suppress' \
+                        and (f_.module.imports.get((dotted(ce.func) or ''
+                                                    ).split('.')[0]) in (
+                            ('module', 'contextlib'),
+                            ('name', 'contextlib', 'suppress'))):
+                    rep.bad('C14.quit', f_.where, ce,
+                            f'{norm(ce)} is not `try / except`: since Python '
+                            '3.12 it also absorbs an ExceptionGroup whose '
+                            'members all match (and strips matching members '
+                            'from a mixed group) - a processor that raises '
+                            'ExceptionGroup("..", [Quit()]) makes start() '
+                            'return normally instead of propagating an '
+                            'exception that is not Quit', line=ce.lineno)
     f = lp.methods['start']
     # a context manager of the package around the loop (its __enter__ /
     # __exit__ set `running` and absorb Quit): not modelled - no verdict
